@@ -245,7 +245,10 @@ def gen_unknown(rng, depth=0, maxdepth=3):
     # plain names, and names that look like paths (the parser resolves every name with the path resolver)
     name = rng.choice([b"unk", b"unknown_opt", b"zz9", b"new-feature", b"Unk", b"extra|level", b"zzq|x|y", b'"zzp=1|x"', b"zzr|"])
     kind = rng.choice(["assign", "list", "append", "appendlist", "call", "sec", "tsec", "sec", "tsec"])
-    v = lambda: rng.choice([b"1", b"x", b"\"q s\"", b"'}'", b"\"{\"", b"true", b"1.5", b"a/b"])
+    # values include strings with braces, quotes of the other kind, escaped quotes and backslash-newline continuations: what
+    # is skipped is still scanned as the language says
+    v = lambda: rng.choice([b"1", b"x", b"\"q s\"", b"'}'", b"\"{\"", b"true", b"1.5", b"a/b", b"\"a\\\nb\"", b"'c\\\nd }'", b"\"it's { \\\" }\"",
+                            b"'say \"}\" \\' {'", b"\"two\nlines }\"", b"\"${HOME:-}}\""])
     if kind == "assign":
         return [name, b"=", v()]
     if kind == "append":
